@@ -174,6 +174,23 @@ func ValidVariants(s *Schema) []Variant {
 	m.Defs = append(m.Defs, intf("NewI", fld("x", N("Int"), arg("a", N("Int")))), obj("NewO", fld("x", NN(N("Int")), arg("a", N("Int")), arg("b", N("String")))).Impl("NewI"),
 		uni("NewU", "NewO"), enu("NewE", "P", "Q"), inp("NewIn", ifldD("e", N("NewE"), E("Q"))), scl("NewS"), dir("newd", []string{"OBJECT", "UNION"}, arg("x", N("NewIn"))))
 	add(m, "one new definition of every kind")
+	// the implicit schema extended with a custom-named mutation root (no schema block anywhere)
+	if len(s.Blocks) == 0 && s.Def("Mutation") == nil && s.Def("Change") == nil {
+		m := s.Clone()
+		m.Defs = append(m.Defs, obj("Change", fld("bump", N("Int"))))
+		m.Blocks = []*SchemaBlock{{Extend: true, Mutation: "Change"}}
+		add(m, "implicit schema extended with mutation: Change")
+	}
+	// the query root implementing an interface (root types sit in their own rank of the type table)
+	if q, _, _ := s.RootTypes(); q != "" && s.Def("RootIf") == nil {
+		if qd := s.Def(q); qd != nil && len(qd.Fields) > 0 && len(qd.Fields[0].Args) == 0 {
+			m := s.Clone()
+			f0 := qd.Fields[0]
+			m.Defs = append(m.Defs, intf("RootIf", fld(f0.Name, f0.Type)), obj("OtherImpl", fld(f0.Name, f0.Type)).Impl("RootIf"))
+			m.Def(q).Implements = append(m.Def(q).Implements, "RootIf")
+			add(m, "the query root implements an interface")
+		}
+	}
 	// root operation types: an explicit schema block that names only the query root, beside ordinary object types that
 	// happen to be called Mutation and Subscription (they are NOT root types then); and, with no block, the same two
 	// objects, which then are the roots by their names
